@@ -7,6 +7,7 @@ import (
 	"context"
 	"encoding/json"
 	"fmt"
+	"io"
 	"os"
 	"path/filepath"
 	"testing"
@@ -221,7 +222,9 @@ func c01CheckEpoch(e *vEpoch, access string) (class, detail string) {
 		}
 		st, _ := f.Stat()
 		ep.localCarReader = nil
-		ep.remoteCarReader = &readCloserWrapper{rac: f, name: e.CarPath, size: st.Size()}
+		// (a conforming ReaderAt of the kind that reports io.EOF together with the last bytes of the file; the
+		// other convention is what the memory-mapped file of the "file" access and C02's HTTP reader follow)
+		ep.remoteCarReader = &readCloserWrapper{rac: c01EagerEOF{f, st.Size()}, name: e.CarPath, size: st.Size()}
 		// the ReaderAt path derives the header size from the leading uvarint
 		hb := make([]byte, 10)
 		f.ReadAt(hb, 0)
@@ -425,3 +428,18 @@ func TestVerif_C01(t *testing.T) {
 		}
 	}
 }
+
+type c01EagerEOF struct {
+	f    *os.File
+	size int64
+}
+
+func (r c01EagerEOF) ReadAt(p []byte, off int64) (int, error) {
+	n, err := r.f.ReadAt(p, off)
+	if err == nil && off+int64(n) == r.size {
+		err = io.EOF
+	}
+	return n, err
+}
+
+func (r c01EagerEOF) Close() error { return r.f.Close() }
